@@ -236,8 +236,15 @@ impl XmlReader {
             .children()
             .find(|n| n.tag_name().name() == "schema")
             .ok_or(WriterError::SchemaNotFound)?;
-        Self::read_xsd(schema, files, doc)?;
-        Ok(())
+
+        // the inline schema has a target namespace of its own, which need not be the WSDL's
+        let wsdl_namespace = doc.current_target_namespace.clone();
+        if let Some(target_namespace) = schema.attribute("targetNamespace") {
+            doc.switch_to_target_namespace(target_namespace);
+        }
+        let result = Self::read_xsd(schema, files, doc);
+        doc.current_target_namespace = wsdl_namespace;
+        result
     }
 
     fn read_xsd<'n>(node: Node<'n, 'n>, files: &Files, doc: &mut RustDocument) -> WriterResult<()> {
